@@ -7,7 +7,7 @@
    5. scanner lines / compile_error_has_line_partial *)
 From Coq Require Import List String Ascii NArith Bool Arith Lia.
 From Coq Require Import Strings.Byte.
-From YV Require Import Show Scanner Parser ParseRun Bytecode Verifier VerifierProofs Lines LinesSpec.
+From YV Require Import Show Utf8 NumText Scanner Parser ParseRun Bytecode Skeleton Verifier VerifierProofs Lines LinesSpec.
 Import ListNotations.
 Local Open Scope nat_scope.
 Local Open Scope list_scope.
@@ -99,25 +99,27 @@ Definition pending (fs : list sframe) : list nat :=
 
 Arguments pending : simpl never.
 
-Definition eip_rel (e : option nat) (fs : list sframe) : Prop :=
-  match pending fs with [] => e = None | [p] => e = Some p | _ => False end.
+(* with no failure being propagated the error position is empty - or stale but harmless, when every
+   way of raising an exception overwrites it (fail_records) *)
+Definition eip_rel (rec : bool) (e : option nat) (fs : list sframe) : Prop :=
+  match pending fs with [] => e = None \/ rec = true | [p] => e = Some p | _ => False end.
 
 Definition fiber_match (mf : list frame) (sf : list sframe) : Prop :=
   map fr_fn mf = map sf_fn sf /\ map fr_ip (tl mf) = map sf_pos (tl sf).
 
-Definition caller_rel (c : fiber) (cs : list sframe) : Prop :=
+Definition caller_rel (rec : bool) (c : fiber) (cs : list sframe) : Prop :=
   map fr_fn (fb_frames c) = map sf_fn cs /\ map fr_ip (fb_frames c) = map sf_pos cs /\
-  eip_rel (fb_error_ip c) cs.
+  eip_rel rec (fb_error_ip c) cs.
 
 Definition Inv (fl : flags) (m : vmst) (s : sst) : Prop :=
   fiber_match (fb_frames (v_fib m)) (s_frames s) /\
-  Forall2 caller_rel (v_callers m) (s_callers s) /\
+  Forall2 (caller_rel (fail_records fl)) (v_callers m) (s_callers s) /\
   (if s_raised s then
      exists p, top_fail (s_frames s) = Some p /\ pending (s_frames s) = [p] /\
                (fb_error_ip (v_fib m) = Some p \/
                 (fb_error_ip (v_fib m) = None /\ v_ip m = p /\ s_builtin s = true /\
                  fail_records fl = false))
-   else eip_rel (fb_error_ip (v_fib m)) (s_frames s)).
+   else eip_rel (fail_records fl) (fb_error_ip (v_fib m)) (s_frames s)).
 
 Lemma no_pending_nil : forall fs, no_pending fs = true -> pending fs = [].
 Proof.
@@ -148,6 +150,9 @@ Qed.
 Lemma map_eq_length : forall {A B C} (f : A -> C) (g : B -> C) l l',
   map f l = map g l' -> List.length l = List.length l'.
 Proof. intros. rewrite <- (map_length f l), H, map_length. reflexivity. Qed.
+
+Lemma map_tl : forall {A B} (f : A -> B) l, map f (tl l) = tl (map f l).
+Proof. intros A B f [|x r]; reflexivity. Qed.
 
 Lemma top_ip_hd : forall l, top_ip l = hd 0 (map fr_ip l).
 Proof. intros [|f r]; reflexivity. Qed.
@@ -188,7 +193,7 @@ Qed.
 
 Section Sim.
   Variable fl : flags.
-  Hypothesis Hclear : clear_on_catch fl = true.
+  Hypothesis Hclear : clear_on_catch fl = true \/ fail_records fl = true.
   Hypothesis Hrebase : rebase_on_drop fl = true.
 
   Lemma sim_step : forall m s o,
@@ -233,13 +238,14 @@ Section Sim.
           change (pending (mkSF (sf_fn f) (sf_pos f) (Some pc) :: r)) with ([pc] ++ pending r).
           rewrite Hnp; reflexivity.
         * destruct (fail_records fl) eqn:Efr; [left; reflexivity|].
-          right. unfold eip_rel in Hr. rewrite Hnp in Hr. repeat split; assumption.
+          right. unfold eip_rel in Hr. rewrite Hnp in Hr.
+          destruct Hr as [Hr | Hr]; [repeat split; assumption | congruence].
     - (* OUnwind *)
       unfold op_okb in Hok. cbn [s_raised s_frames] in Hok. apply andb_true_iff in Hok as [Hok Hle2]. apply andb_true_iff in Hok as [Hra Hle1].
       subst raised. destruct Hr as [p [Htf [Hpend Hdisj]]].
       pose proof (map_eq_length _ _ _ _ Hfn) as Hlen.
       unfold mstep, sstep. cbn [fb_frames v_fib s_frames v_callers s_callers fb_error_ip].
-      rewrite Hlen, Hle1, Hle2. cbn [andb]. rewrite Hrebase, Hclear.
+      rewrite Hlen, Hle1, Hle2. cbn [andb]. rewrite Hrebase.
       apply Nat.leb_le in Hle1, Hle2.
       destruct (Nat.ltb fc (List.length sf)) eqn:Elt.
       + (* frames are discarded *)
@@ -262,11 +268,13 @@ Section Sim.
         unfold Inv. cbn [fb_frames v_fib s_frames v_callers s_callers s_raised fb_error_ip v_ip s_builtin].
         split; [|split; [exact Hcs|]].
         * unfold fiber_match. rewrite set_top_ip_fn, set_top_fail_fn, set_top_ip_tl, set_top_fail_tl.
-          split; [exact Hk2|]. rewrite <- !map_tl, Hk1. reflexivity.
+          split; [exact Hk2|]. rewrite !map_tl. f_equal. exact Hk1.
         * unfold eip_rel. cbn [andb]. destruct (skipn k (tl sf)) as [|f r] eqn:Es; [contradiction|].
           rewrite pending_cons in Hpk. apply app_eq_nil in Hpk as [_ Hpr].
           destruct hc; cbn [andb].
-          -- rewrite pending_set_top_fail, Hpr. reflexivity.
+          -- rewrite pending_set_top_fail, Hpr. cbn [app].
+             destruct (clear_on_catch fl); [left; reflexivity|].
+             destruct Hclear as [Hcl | Hcl]; [discriminate | right; exact Hcl].
           -- rewrite pending_set_top_fail, Hpr. cbn.
              rewrite top_ip_hd, Hk1, <- top_pos_hd. reflexivity.
       + (* the handler belongs to the innermost frame *)
@@ -279,7 +287,9 @@ Section Sim.
         * unfold eip_rel. destruct sf as [|f r]; [discriminate|].
           pose proof (top_fail_pending_tl _ _ Htf Hpend) as Hpr. cbn [tl] in Hpr.
           destruct hc; cbn [andb].
-          -- rewrite pending_set_top_fail, Hpr. reflexivity.
+          -- rewrite pending_set_top_fail, Hpr. cbn [app].
+             destruct (clear_on_catch fl); [left; reflexivity|].
+             destruct Hclear as [Hcl | Hcl]; [discriminate | right; exact Hcl].
           -- cbn [top_fail]. cbn in Htf. rewrite Htf, pending_set_top_fail, Hpr. cbn.
              destruct Hdisj as [E | [E1 [E2 [E3 E4]]]]; [exact E|].
              exfalso. destruct Hkc as [Hkc | Hkc]; [congruence|].
@@ -288,7 +298,7 @@ Section Sim.
       cbn in Hok. destruct raised; [discriminate|]. cbn in Hok.
       destruct (top_fail sf) as [p|] eqn:Etf; [|discriminate].
       unfold Inv; cbn. split; [exact (conj Hfn Hip)|]. split; [exact Hcs|].
-      exists p. split; [reflexivity|].
+      exists p. split; [exact Etf|].
       destruct sf as [|f r]; [discriminate|]. cbn in Etf.
       unfold eip_rel in Hr. rewrite pending_cons, Etf in Hr. cbn in Hr.
       destruct (pending r) as [|q qs] eqn:Ep; [|contradiction].
@@ -302,12 +312,12 @@ Section Sim.
         * rewrite Hg, Hmr; reflexivity.
         * rewrite Hip; reflexivity.
         * exact Hr.
-      + reflexivity.
+      + left; reflexivity.
     - (* OFiberEnd *)
       cbn in Hok. destruct raised; [discriminate|]. destruct scs as [|c cs]; [discriminate|].
       inversion Hcs as [|mc c' mcs' cs' [Hc1 [Hc2 Hc3]] Hrest]; subst.
       unfold Inv; cbn. split; [|split; [exact Hrest | exact Hc3]].
-      unfold fiber_match. split; [exact Hc1|]. rewrite <- !map_tl, Hc2. reflexivity.
+      unfold fiber_match. split; [exact Hc1|]. rewrite !map_tl, Hc2. reflexivity.
   Qed.
 
   Lemma sim_run : forall ops m s,
@@ -328,7 +338,7 @@ Section Sim.
 
   Lemma inv_init : forall fd, Inv fl (init_vm fd) (sinit fd).
   Proof.
-    intros fd. unfold Inv; cbn. split; [split; reflexivity|]. split; [constructor | reflexivity].
+    intros fd. unfold Inv; cbn. split; [split; reflexivity|]. split; [constructor | left; reflexivity].
   Qed.
 
   Lemma entries_tail : forall (mr : list frame) (r : list sframe),
@@ -472,3 +482,241 @@ Proof.
   apply nth_error_None in En. lia.
 Qed.
 Print Assumptions line_index_in_range.
+
+(* ------------------------------------------------------------------ *)
+(** * 5. token lines stay inside the source; compile errors *)
+
+Local Open Scope N_scope.
+
+(* number of newline CHARACTERS still to be scanned *)
+Definition cnl (cs : list chr) : N := N.of_nat (List.length (filter (fun c => chr_is c "010") cs)).
+
+Lemma cnl_cons : forall c r, cnl (c :: r) = (if chr_is c "010" then 1 else 0) + cnl r.
+Proof.
+  intros c r. unfold cnl. cbn [filter]. destruct (chr_is c "010"); cbn [List.length]; lia.
+Qed.
+Lemma cnl_cons_le : forall c r, cnl r <= cnl (c :: r).
+Proof. intros; rewrite cnl_cons; destruct (chr_is c "010"); lia. Qed.
+Lemma cnl_nil : cnl [] = 0.
+Proof. reflexivity. Qed.
+
+(* what one scanning step may do: the token carries the line the scanner is on afterwards, the line
+   only grows, and it grows by at most the number of newline characters consumed *)
+Definition good (line : N) (cs : list chr) (t : token) (st' : sstate) : Prop :=
+  tline t = s_line st' /\ line <= s_line st' /\ s_line st' + cnl (s_rest st') <= line + cnl cs.
+
+Lemma skip_ws_good : forall cs b pos line,
+  let '(cs', _, line') := skip_ws b cs pos line in
+  line <= line' /\ line' + cnl cs' <= line + cnl cs.
+Proof.
+  induction cs as [|c r IH]; intros b pos line; cbn [skip_ws]; [split; lia|].
+  pose proof (cnl_cons c r) as Hc.
+  destruct b.
+  - destruct (chr_is c "010") eqn:E.
+    + specialize (IH false (pos + 1)%nat (line + 1)).
+      destruct (skip_ws false r (pos + 1) (line + 1)) as [[cs' p'] l']. lia.
+    + specialize (IH true (pos + List.length c)%nat line).
+      destruct (skip_ws true r (pos + List.length c) line) as [[cs' p'] l']. lia.
+  - destruct (chr_is c " " || chr_is c "013" || chr_is c "009") eqn:Ews.
+    + specialize (IH false (pos + 1)%nat line).
+      destruct (skip_ws false r (pos + 1) line) as [[cs' p'] l'].
+      destruct (chr_is c "010"); lia.
+    + destruct (chr_is c "010") eqn:E.
+      * specialize (IH false (pos + 1)%nat (line + 1)).
+        destruct (skip_ws false r (pos + 1) (line + 1)) as [[cs' p'] l']. lia.
+      * destruct (chr_is c "/").
+        -- destruct r as [|c2 r2]; [split; lia|].
+           destruct (chr_is c2 "/").
+           ++ specialize (IH true (pos + 1)%nat line).
+              destruct (skip_ws true (c2 :: r2) (pos + 1) line) as [[cs' p'] l']. lia.
+           ++ split; lia.
+        -- split; lia.
+Qed.
+
+Lemma span_ident_cnl : forall cs l r, span_ident cs = (l, r) -> cnl r <= cnl cs.
+Proof.
+  induction cs as [|c cs IH]; intros l r H; cbn [span_ident] in H.
+  - inversion H; lia.
+  - destruct c as [|b [|b2 c']]; try (inversion H; lia).
+    destruct (is_alpha_byte b || is_digit b); [|inversion H; lia].
+    destruct (span_ident cs) as [l' r'] eqn:E. inversion H; subst.
+    specialize (IH _ _ eq_refl). pose proof (cnl_cons_le [b] cs). lia.
+Qed.
+
+Lemma span_digit_cnl : forall cs l r, span_digit_chrs cs = (l, r) -> cnl r <= cnl cs.
+Proof.
+  induction cs as [|c cs IH]; intros l r H; cbn [span_digit_chrs] in H.
+  - inversion H; lia.
+  - destruct c as [|b [|b2 c']]; try (inversion H; lia).
+    destruct (is_digit b); [|inversion H; lia].
+    destruct (span_digit_chrs cs) as [l' r'] eqn:E. inversion H; subst.
+    specialize (IH _ _ eq_refl). pose proof (cnl_cons_le [b] cs). lia.
+Qed.
+
+Lemma number_tail_cnl : forall cs l r, number_tail cs = (l, r) -> cnl r <= cnl cs.
+Proof.
+  intros cs l r H. unfold number_tail in H.
+  destruct (span_digit_chrs cs) as [ip r1] eqn:E1. pose proof (span_digit_cnl _ _ _ E1) as H1.
+  destruct r1 as [|d [|n r2]]; try (inversion H; subst; lia).
+  destruct (chr_is d "." && is_digit_chr n); [|inversion H; subst; lia].
+  destruct (span_digit_chrs (n :: r2)) as [fp r3] eqn:E3. pose proof (span_digit_cnl _ _ _ E3) as H3.
+  inversion H; subst. pose proof (cnl_cons_le d (n :: r2)). lia.
+Qed.
+
+Lemma match_chr_cnl : forall cs b ok r, match_chr cs b = (ok, r) -> cnl r <= cnl cs.
+Proof.
+  intros [|c cs] b ok r H; cbn in H; [inversion H; lia|].
+  destruct (chr_is c b); inversion H; subst; [apply cnl_cons_le | lia].
+Qed.
+
+Lemma skipn_cnl : forall k cs, cnl (skipn k cs) <= cnl cs.
+Proof.
+  induction k as [|k IH]; intros cs; [cbn; lia|]. destruct cs as [|c r]; [cbn; lia|].
+  cbn [skipn]. pose proof (IH r). pose proof (cnl_cons_le c r). lia.
+Qed.
+
+Ltac fin_good :=
+  unfold good in *; cbn [tline s_line s_rest error_token] in *; repeat split; lia.
+
+Lemma string_loop_good : forall cs skip buf err pos line parens,
+  let '(t, st') := string_loop cs skip buf err pos line parens in good line cs t st'.
+Proof.
+  induction cs as [|c r IH]; intros skip buf err pos line parens; cbn [string_loop].
+  - fin_good.
+  - pose proof (cnl_cons_le c r) as Hc.
+    destruct skip as [|k].
+    + destruct (chr_is c """") eqn:Eq.
+      { destruct err; fin_good. }
+      destruct (chr_is c "$") eqn:Ed.
+      { destruct r as [|c2 r2]; [fin_good|].
+        pose proof (cnl_cons_le c2 r2) as Hc2.
+        destruct (negb (chr_is c2 "{")); [fin_good|].
+        destruct (Nat.leb INTERPOLATION_DEPTH_MAX (List.length parens)); fin_good. }
+      destruct (chr_is c "\") eqn:Eb.
+      { destruct r as [|c2 r2]; [fin_good|].
+        pose proof (cnl_cons_le c2 r2) as Hc2.
+        destruct (simple_escape c2).
+        { specialize (IH 1%nat (b :: buf) err (pos + 1)%nat line parens).
+          destruct (string_loop (c2 :: r2) 1 (b :: buf) err (pos + 1) line parens) as [t st'].
+          fin_good. }
+        destruct (hex_escape c2) as [[n msg]|].
+        { destruct (read_escaped_bytes n r2) as [[l|] k].
+          - specialize (IH (1 + k)%nat (rev_append l buf) err (pos + 1)%nat line parens).
+            destruct (string_loop (c2 :: r2) (1 + k) (rev_append l buf) err (pos + 1) line parens) as [t st'].
+            fin_good.
+          - specialize (IH (1 + k)%nat buf (Some msg) (pos + 1)%nat line parens).
+            destruct (string_loop (c2 :: r2) (1 + k) buf (Some msg) (pos + 1) line parens) as [t st'].
+            fin_good. }
+        fin_good. }
+      destruct (chr_is c "010") eqn:En.
+      { assert (Hc' : cnl (c :: r) = 1 + cnl r) by (rewrite cnl_cons, En; reflexivity).
+        specialize (IH 0%nat ("010"%byte :: buf) err (pos + 1)%nat (line + 1) parens).
+        destruct (string_loop r 0 ("010"%byte :: buf) err (pos + 1) (line + 1) parens) as [t st'].
+        fin_good. }
+      specialize (IH 0%nat (rev_append c buf) err (pos + List.length c)%nat line parens).
+      destruct (string_loop r 0 (rev_append c buf) err (pos + List.length c) line parens) as [t st'].
+      fin_good.
+    + specialize (IH k buf err (pos + List.length c)%nat line parens).
+      destruct (string_loop r k buf err (pos + List.length c) line parens) as [t st'].
+      fin_good.
+Qed.
+
+Lemma scan_token_eq : forall st,
+  scan_token st = (fst (fst (scan_token_start st)), snd (scan_token_start st)).
+Proof. intros st. unfold scan_token. destruct (scan_token_start st) as [[t n] st']. reflexivity. Qed.
+
+Lemma scan_token_good : forall st,
+  good (s_line st) (s_rest st) (fst (scan_token st)) (snd (scan_token st)).
+Proof.
+  intros [rest pos line0 parens]. rewrite scan_token_eq. cbn [fst snd]. unfold scan_token_start.
+  cbn [s_rest s_pos s_line s_parens].
+  pose proof (skip_ws_good rest false pos line0) as Hs.
+  destruct (skip_ws false rest pos line0) as [[cs start] line]. destruct Hs as [Hs1 Hs2].
+  destruct cs as [|c r]; [cbn [fst snd]; fin_good|].
+  pose proof (cnl_cons_le c r) as Hc.
+  cbv beta zeta.
+  set (P := fun x : token * nat * sstate => good line0 rest (fst (fst x)) (snd x)).
+  match goal with |- good _ _ (fst (fst ?X)) _ => change (P X) end.
+  destruct (is_alpha c).
+  { destruct (span_ident r) as [l r'] eqn:E. apply span_ident_cnl in E. subst P; cbv beta iota; cbn [fst snd]. fin_good. }
+  destruct (is_digit_chr c).
+  { destruct (number_tail r) as [l r'] eqn:E. apply number_tail_cnl in E. subst P; cbv beta iota; cbn [fst snd]. fin_good. }
+  destruct c as [|b [|b2 c']]; try (subst P; cbv beta iota; cbn [fst snd]; fin_good).
+  repeat match goal with
+  | |- P (match scan_string ?r0 ?p ?l ?ps with _ => _ end) =>
+    pose proof (string_loop_good r0 0%nat [] None p l ps); unfold scan_string;
+    destruct (string_loop r0 0 [] None p l ps) as [? ?]
+  | |- P (match match_chr ?r0 ?x with _ => _ end) =>
+    let E := fresh "E" in destruct (match_chr r0 x) as [? ?] eqn:E; apply match_chr_cnl in E
+  | |- P (match ?x with _ => _ end) => destruct x
+  end; subst P; cbv beta iota; cbn [fst snd]; fin_good.
+Qed.
+
+Lemma scan_loop_lines : forall fuel st t,
+  In t (scan_loop fuel st) -> s_line st <= tline t <= s_line st + cnl (s_rest st).
+Proof.
+  induction fuel as [|f IH]; intros st t Hin; [contradiction|].
+  cbn [scan_loop] in Hin.
+  pose proof (scan_token_good st) as G. destruct (scan_token st) as [t0 st']. cbn [fst snd] in G.
+  destruct G as [G1 [G2 G3]].
+  assert (H0 : s_line st <= tline t0 <= s_line st + cnl (s_rest st)) by lia.
+  destruct (tk t0); cbn [In] in Hin;
+    (destruct Hin as [<- | Hin]; [exact H0 | try contradiction; specialize (IH _ _ Hin); lia]).
+Qed.
+
+Lemma count_nl_app : forall a b, count_nl (a ++ b) = (count_nl a + count_nl b)%nat.
+Proof. intros a b. unfold count_nl. rewrite filter_app, app_length. reflexivity. Qed.
+
+Lemma concat_chars_of : forall l, List.concat (chars_of l) = l.
+Proof.
+  induction l as [|b r IH]; [reflexivity|]. cbn [chars_of].
+  destruct (chars_of r) as [|c cs] eqn:E.
+  - cbn in *. rewrite <- IH. reflexivity.
+  - destruct (starts_with_cont c); cbn in *; rewrite <- IH; reflexivity.
+Qed.
+
+Lemma cnl_le_count : forall cs, cnl cs <= N.of_nat (count_nl (List.concat cs)).
+Proof.
+  induction cs as [|c r IH]; [cbn; lia|].
+  rewrite cnl_cons. cbn [List.concat]. rewrite count_nl_app.
+  destruct (chr_is c "010") eqn:E; [|lia].
+  destruct c as [|x [|y c']]; try discriminate. cbn in E.
+  unfold count_nl at 1. cbn [filter]. unfold is_nl. rewrite E. cbn [List.length]. lia.
+Qed.
+
+(* every token the scanner produces - error tokens included - carries a line of the source *)
+Theorem token_lines_in_range : forall src t,
+  In t (scan_all src) -> 1 <= tline t <= 1 + N.of_nat (count_nl src).
+Proof.
+  intros src t Hin. unfold scan_all in Hin. apply scan_loop_lines in Hin.
+  cbn [init_sstate s_line s_rest] in Hin.
+  pose proof (cnl_le_count (chars_of src)) as H. rewrite concat_chars_of in H. lia.
+Qed.
+Print Assumptions token_lines_in_range.
+
+(* FULL STATEMENT (not proved):
+     compile_error_has_line : forall src l a m,
+       parse_source src = PErr l a m -> 1 <= l <= N.of_nat (count_nl src) + 1.
+   Missing: an invariant over all (~60) functions of Parser.v saying that every token kept in the
+   parser state (p_prev, p_cur, attributes, the opener) is a token of the input; the line of a PErr
+   is `tline` of one of them.  What is proved: every token of the input has an in-range line
+   (token_lines_in_range; this covers the scanner's own errors, which are Error tokens), hence the
+   statement holds for every source on which the decidable side condition `err_line_from_tokenb`
+   computes to true; the check evaluates it on every generated program. *)
+Theorem compile_error_has_line_partial : forall src l a m,
+  err_line_from_tokenb src = true ->
+  parse_source src = PErr l a m -> 1 <= l <= N.of_nat (count_nl src) + 1.
+Proof.
+  intros src l a m Hb Hp. unfold err_line_from_tokenb in Hb. rewrite Hp in Hb.
+  apply existsb_exists in Hb as [t [Hin He]]. apply N.eqb_eq in He. subst l.
+  pose proof (token_lines_in_range src t Hin). lia.
+Qed.
+Print Assumptions compile_error_has_line_partial.
+
+(* hypotheses satisfiable: an unterminated string that starts on line 3 and runs to the end (line 4) *)
+Example compile_error_example :
+  let src := list_byte_of_string ("var a = 1;" ++ String "010" "var b = 2;" ++ String "010" "var c = ""x;"
+                                  ++ String "010" "var d;") in
+  err_line_from_tokenb src = true /\
+  parse_source src = PErr 4 AtNothing "Unterminated string." /\ count_nl src = 3%nat.
+Proof. vm_compute. repeat split; reflexivity. Qed.
